@@ -38,6 +38,42 @@ const outstandingID = "out-1"
 type write struct {
 	kind string
 	node *xt.Node
+	// how the handler writes it: "" token by token, "encode" t.Encode(value),
+	// "encodeelement" t.EncodeElement(payload value, the stanza's start element)
+	via string
+}
+
+// nodeValue marshals as the element it holds (a Go value a handler passes to
+// Encode).
+type nodeValue struct{ n *xt.Node }
+
+func (v nodeValue) MarshalXML(e *xml.Encoder, _ xml.StartElement) error {
+	for _, tok := range v.n.Tokens() {
+		if err := e.EncodeToken(tok); err != nil {
+			return err
+		}
+	}
+	return e.Flush()
+}
+
+// innerValue marshals as the children of the element it holds.
+type innerValue struct{ n *xt.Node }
+
+func (v innerValue) MarshalXML(e *xml.Encoder, start xml.StartElement) error {
+	if err := e.EncodeToken(start); err != nil {
+		return err
+	}
+	for _, c := range v.n.Children {
+		for _, tok := range c.Tokens() {
+			if err := e.EncodeToken(tok); err != nil {
+				return err
+			}
+		}
+	}
+	if err := e.EncodeToken(start.End()); err != nil {
+		return err
+	}
+	return e.Flush()
 }
 
 type prog struct {
@@ -59,6 +95,8 @@ type elem struct {
 	payload xml.Name
 	hasPay  bool
 	prog    prog
+	// the start element also carries type/id/from attributes in a foreign namespace
+	foreignAttrs bool
 }
 
 type tcase struct {
@@ -141,7 +179,12 @@ func genWrites(t *rapid.T, e elem, ns string) []write {
 				}
 			}
 		}
-		ws = append(ws, write{kind: k, node: node})
+		w := write{kind: k, node: node}
+		if (k == "reply-result" || k == "reply-error" || k == "otherid" || k == "message") && rapid.IntRange(0, 2).Draw(t, "wvia") == 0 {
+			// a Go value marshaled by the handler instead of tokens
+			w.via = rapid.SampledFrom([]string{"encode", "encodeelement"}).Draw(t, "wviakind")
+		}
+		ws = append(ws, w)
 	}
 	return ws
 }
@@ -227,6 +270,22 @@ func genCase(t *rapid.T) tcase {
 		if rapid.Bool().Draw(t, "hasto") {
 			attrs = append(attrs, xt.A("to", "test@example.net/r"))
 		}
+		if rapid.IntRange(0, 5).Draw(t, "foreignAttrs") == 0 {
+			// attributes with the same local names in a foreign namespace are not
+			// the stanza's type, id or sender
+			fa := []xml.Attr{
+				{Name: xml.Name{Space: "urn:verif:ext", Local: "type"}, Value: rapid.SampledFrom([]string{"result", "error", "get", "set"}).Draw(t, "xtype")},
+				{Name: xml.Name{Space: "urn:verif:ext", Local: "id"}, Value: "foreign-id"},
+				{Name: xml.Name{Space: "urn:verif:ext", Local: "from"}, Value: "nobody@example.org/x"},
+			}
+			k := rapid.IntRange(1, 3).Draw(t, "nforeign")
+			if rapid.Bool().Draw(t, "foreignFirst") {
+				attrs = append(append([]xml.Attr{}, fa[:k]...), attrs...)
+			} else {
+				attrs = append(attrs, fa[:k]...)
+			}
+			e.foreignAttrs = true
+		}
 		name := xml.Name{Space: ns, Local: e.kind}
 		switch e.kind {
 		case "other":
@@ -255,7 +314,7 @@ func genCase(t *rapid.T) tcase {
 		}
 		e.prog.writes = genWrites(t, e, ns)
 		if rapid.IntRange(0, 7).Draw(t, "ret") == 0 {
-			e.prog.ret = rapid.SampledFrom([]string{"plain", "stream"}).Draw(t, "retkind")
+			e.prog.ret = rapid.SampledFrom([]string{"plain", "stream", "wrapeof", "eof", "wrapunexpected"}).Draw(t, "retkind")
 		}
 		tc.elems = append(tc.elems, e)
 	}
@@ -284,7 +343,7 @@ func (tc tcase) String() string {
 	for i, e := range tc.elems {
 		fmt.Fprintf(&sb, "\n  in[%d] %s\n     handler: read=%s/%d ret=%q writes:", i, e.node.Bytes(tc.ns()), e.prog.read, e.prog.k, e.prog.ret)
 		for _, w := range e.prog.writes {
-			fmt.Fprintf(&sb, " [%s %s]", w.kind, w.node.Bytes(tc.ns()))
+			fmt.Fprintf(&sb, " [%s%s %s]", w.kind, map[string]string{"": "", "encode": " via Encode(value)", "encodeelement": " via EncodeElement(value, start)"}[w.via], w.node.Bytes(tc.ns()))
 		}
 	}
 	fmt.Fprintf(&sb, "\n  peer closes=%v", tc.closeIt)
@@ -321,7 +380,16 @@ func (r *runner) run(p prog, t xmlstream.TokenReadEncoder) error {
 		}
 	}
 	for _, w := range p.writes {
-		if _, err := xmlstream.Copy(t, w.node.Reader()); err != nil {
+		var err error
+		switch w.via {
+		case "encode":
+			err = t.Encode(nodeValue{w.node})
+		case "encodeelement":
+			err = t.EncodeElement(innerValue{w.node}, xml.StartElement{Name: w.node.Name, Attr: append([]xml.Attr(nil), w.node.Attr...)})
+		default:
+			_, err = xmlstream.Copy(t, w.node.Reader())
+		}
+		if err != nil {
 			return err
 		}
 	}
@@ -330,6 +398,13 @@ func (r *runner) run(p prog, t xmlstream.TokenReadEncoder) error {
 		return errors.New("verif: handler failed")
 	case "stream":
 		return stream.PolicyViolation
+	case "wrapeof":
+		// (what a handler gets from reading an empty payload to its end, wrapped)
+		return fmt.Errorf("verif: no payload: %w", io.EOF)
+	case "eof":
+		return io.EOF
+	case "wrapunexpected":
+		return fmt.Errorf("verif: short payload: %w", io.ErrUnexpectedEOF)
 	}
 	return nil
 }
@@ -700,6 +775,9 @@ func classify(tc tcase) (bool, []string) {
 			}
 			for _, w := range e.prog.writes {
 				classes = append(classes, "write-"+w.kind)
+				if w.via != "" {
+					classes = append(classes, "write-via-"+w.via)
+				}
 			}
 			if !e.hasID || e.id == "" {
 				classes = append(classes, "iq-no-id")
